@@ -124,7 +124,7 @@ func H_C12_document_chunker() {
 // in page order, whatever the heading nesting, with indices 0..n-1, unique ids and the right total.
 //
 //symgo:harness prop=C12 kernel=K2-layout-chunker
-//symgo:desc 1..2 pages, each with 0..2 headings (levels symbolic in [1,3]) and 1 paragraph (marker text) and optionally a 1-item list; default ChunkerConfig: every paragraph/list marker occurs exactly once in the chunk texts, page order preserved, indices/ids/total consistent, section path = chain of enclosing headings for the page's last heading; the pages carry source numbers 1,2 or 2,4 (enumerated) and every chunk's PageStart/PageEnd are source numbers whose range holds the page of each text in it
+//symgo:desc 1..2 pages, each with 0..2 headings (levels symbolic in [1,4]; level 4 is deeper than the default MinHeadingLevel and must come out as content) and 1 paragraph (marker text) and optionally a 1-item list; default ChunkerConfig: every paragraph/list marker occurs exactly once in the chunk texts, page order preserved, indices/ids/total consistent, section path = chain of enclosing headings for the page's last heading; the pages carry source numbers 1,2 or 2,4 (enumerated) and every chunk's PageStart/PageEnd are source numbers whose range holds the page of each text in it
 func H_C12_layout_chunker() {
 	np := vAnyIntIn(1, 2)
 	doc := model.NewDocument()
@@ -145,10 +145,17 @@ func H_C12_layout_chunker() {
 		page.Layout = &model.PageLayout{}
 		nh := vAnyIntIn(0, 2)
 		for h := 0; h < nh; h++ {
-			lvl := vAnyIntRange(1, 3)
+			lvl := vAnyIntRange(1, 4)
 			txt := "Head" + string(rune('A'+p)) + string(rune('0'+h))
 			page.Layout.Headings = append(page.Layout.Headings, model.HeadingInfo{Level: lvl, Text: txt})
-			stack = vRefPush(stack, lvl, txt)
+			if lvl <= 3 {
+				stack = vRefPush(stack, lvl, txt)
+			} else {
+				// deeper than MinHeadingLevel (3): not a section of its own, its text is content of the enclosing one
+				markers = append(markers, txt)
+				markerPage = append(markerPage, num)
+				wantPath = append(wantPath, vPathTexts(stack))
+			}
 		}
 		mk := "Para" + string(rune('A'+p))
 		page.Layout.Paragraphs = append(page.Layout.Paragraphs, model.ParagraphInfo{Text: mk + " body."})
@@ -245,7 +252,7 @@ func H_C12_layout_chunker_large_section() {
 // paragraph, two lists in a row, a list whose last item reads like an introduction - all land in the chunks exactly once.
 //
 //symgo:harness prop=C12 kernel=K2-layout-chunker-lists
-//symgo:desc one heading, 2 paragraphs of 45 or 75 bytes (enumerated; the second optionally ends in a colon, i.e. reads as a list introduction) and 1..2 bullet lists of two items each (enumerated; the first list's last item optionally ends in "options:"); ChunkerConfig with MaxChunkSize 80, MinChunkSize 20, TargetChunkSize 60, no overlap, list coherence on: every paragraph marker and every list item marker occurs exactly once in the chunk texts; chunk indices consistent
+//symgo:desc one heading, 2 paragraphs of 45 or 75 bytes (enumerated; the second optionally ends in a colon, i.e. reads as a list introduction) and 1..2 bullet lists of two items each (enumerated; the first list's last item optionally ends in "options:"; the first list optionally has four items and is then larger than the maximum chunk size); ChunkerConfig with MaxChunkSize 80, MinChunkSize 20, TargetChunkSize 60, no overlap, list coherence on: every paragraph marker and every list item marker occurs exactly once in the chunk texts, in document order; chunk indices consistent
 func H_C12_layout_chunker_lists() {
 	cfg := DefaultChunkerConfig()
 	cfg.MaxChunkSize, cfg.MinChunkSize, cfg.TargetChunkSize, cfg.OverlapSize = 80, 20, 60, 0
@@ -272,8 +279,14 @@ func H_C12_layout_chunker_lists() {
 		if l == 0 && vAnyIntIn(0, 1) == 1 {
 			last = "Li" + tag + "2 see the remaining options:"
 		}
-		page.Layout.Lists = append(page.Layout.Lists, model.ListInfo{Type: model.ListTypeBullet, Items: []model.ListItem{{Text: "Li" + tag + "1 first entry"}, {Text: last}}})
+		items := []model.ListItem{{Text: "Li" + tag + "1 first entry"}, {Text: last}}
 		markers = append(markers, "Li"+tag+"1", "Li"+tag+"2")
+		if l == 0 && vAnyIntIn(0, 1) == 1 {
+			// the first list alone is larger than the maximum chunk size: it has to be split by sentences
+			items = append(items, model.ListItem{Text: "Li" + tag + "3 third entry of the long list."}, model.ListItem{Text: "Li" + tag + "4 fourth entry of the long list."})
+			markers = append(markers, "Li"+tag+"3", "Li"+tag+"4")
+		}
+		page.Layout.Lists = append(page.Layout.Lists, model.ListInfo{Type: model.ListTypeBullet, Items: items})
 	}
 	doc := model.NewDocument()
 	doc.AddPage(page)
@@ -286,8 +299,12 @@ func H_C12_layout_chunker_lists() {
 		all.WriteString("\n")
 	}
 	text := all.String()
+	lastPos := -1
 	for _, mk := range markers {
 		vAssert("paragraph-or-list-item-exactly-once", strings.Count(text, mk) == 1)
+		pos := strings.Index(text, mk)
+		vAssert("document-order", pos > lastPos)
+		lastPos = pos
 	}
 	vReach("end")
 }
